@@ -673,6 +673,16 @@ def entry_jobs(ctx):
                 add('penalized_direct', {'lam': 100.0, 'diff_order': d, 'allow_lower': al, 'allow_pentapy': ap, 'use_weights': True,
                                          'pentapy_solver': 1 + (d % 2)}, 'shuffled')
         add('difference_matrix', {'diff_order': d}, n=9)
+    # exactly-zero weights (some / many / at the ends / only the last sample) crossed with non-finite data AT those samples,
+    # input validation switched off (check_finite=False): IEEE 0 * NaN = NaN, every backend must propagate alike
+    for zw in ('some', 'many', 'ends', 'last'):
+        for nf in (None, 'nan', '+inf', '-inf'):
+            for entry, kw in (('pspline_smooth', {'lam': 10.0, 'num_knots': 8, 'spline_degree': 3, 'diff_order': 2, 'use_weights': True, 'check_finite': False}),
+                              ('pspline_direct', {'lam': 10.0, 'num_knots': 9, 'spline_degree': 2, 'diff_order': 2, 'allow_lower': zw != 'many', 'use_weights': True}),
+                              ('whittaker_smooth', {'lam': 100.0, 'diff_order': 2, 'use_weights': True, 'check_finite': False}),
+                              ('penalized_direct', {'lam': 100.0, 'diff_order': 2, 'allow_lower': zw != 'ends', 'allow_pentapy': True, 'use_weights': True})):
+                add(entry, dict(kw), 'shuffled' if zw == 'some' else 'sorted')
+                jobs[-1].update({'zero_w': zw, 'nf': nf, 'tag': f'entry:zero_w={zw}:nf={nf}', 'ykind': f'zero_w={zw}/nf={nf}'})
     add('optimize_window', {})
     add('optimize_window', {'increment': 2, 'max_hits': 2})
     for mode in ('extrapolate', 'reflect', 'edge'):
@@ -688,6 +698,10 @@ def pair_cases():
         for deg, nk in ((1, 6), (2, 6), (3, 10), (3, 5)):
             cases.append({'id': f'q{len(cases)}', 'n': 40 + 3 * len(cases) % 17, 'seed': 500 + len(cases), 'order': order, 'degree': deg,
                           'num_knots': nk, 'allow_lower': len(cases) % 2 == 0})
+    for zw in ('some', 'many', 'ends', 'last'):
+        for nf in (None, 'nan', '+inf', '-inf'):
+            cases.append({'id': f'q{len(cases)}', 'n': 40, 'seed': 700 + len(cases), 'order': 'shuffled' if zw == 'many' else 'sorted',
+                          'degree': 3 if zw != 'ends' else 1, 'num_knots': 8, 'allow_lower': zw != 'some', 'zero_w': zw, 'nf': nf})
     return cases
 
 
@@ -716,9 +730,10 @@ def check_pairs(ctx, cases, results):
                 tol = 1e-8 if k == 'solve_pspline:arms' else 1e-10 * scale
                 if not (v <= tol):
                     good = False
-                    ctx.fail(f'pair:{k.split(":")[0]}:order={case["order"]}',
+                    ctx.fail(f'pair:{k.split(":")[0]}:order={case["order"]}' + (f':zero_w={case["zero_w"]}:nf={case.get("nf")}' if case.get('zero_w') else ''),
                              f'{k} differs from its fallback / reference route by {v:.3e} (allowed {tol:.1e}) for x order `{case["order"]}`, '
-                             f'spline_degree={case["degree"]}, num_knots={case["num_knots"]}, n={case["n"]}, numba blocked={env[0]}, pentapy blocked={env[1]}', ck)
+                             f'spline_degree={case["degree"]}, num_knots={case["num_knots"]}, n={case["n"]}, zero weights={case.get("zero_w")}, data at those '
+                             f'samples={case.get("nf") or "finite"}, numba blocked={env[0]}, pentapy blocked={env[1]}', ck)
     if good and n:
         ctx.discharged.append(ob)
     return n
@@ -883,6 +898,17 @@ def oracle_jobs(ctx):
             if name == 'beads':
                 kw = {'freq_cutoff': 0.05, 'max_iter': 3, 'tol': 0.0}      # fixed pass count: the stop rule is a knife edge
             add(name, rng.choice([48, 64]), kw, f'scale={sc}', ykind='scale' + sc)
+    # J. zero weights x non-finite data at those samples through the fitter (created with check_finite=False): FIXED grid
+    zw_methods = [('asls', {'lam': 1e3, 'max_iter': 0}), ('iasls', {'lam': 1e3, 'max_iter': 0}), ('arpls', {'lam': 1e3, 'max_iter': 0}),
+                  ('airpls', {'lam': 1e3, 'max_iter': 0}), ('drpls', {'lam': 1e3, 'max_iter': 0}), ('aspls', {'lam': 1e3, 'max_iter': 0}),
+                  ('mpls', {'lam': 1e3, 'half_window': 4}), ('pspline_asls', {'num_knots': 8, 'lam': 10, 'max_iter': 0}),
+                  ('pspline_arpls', {'num_knots': 8, 'lam': 10, 'max_iter': 0}), ('pspline_iasls', {'num_knots': 8, 'lam': 10, 'max_iter': 0}),
+                  ('pspline_mpls', {'num_knots': 8, 'lam': 10, 'half_window': 4}), ('mpspline', {'num_knots': 8, 'half_window': 4})]
+    for gi, (name, kw) in enumerate(zw_methods):
+        for zw in ('some', 'many', 'ends', 'last'):
+            for nf in (None, 'nan', '+inf', '-inf'):
+                jobs.append({'id': f'o{len(jobs)}', 'method': name, 'n': 40, 'seed': 9000 + gi, 'kw': dict(kw), 'bs_list': BS,
+                             'tag': f'zero_w={zw}:nf={nf}', 'ykind': f'zero_w={zw}/nf={nf}', 'zero_w': zw, 'nf': nf})
     # G. data kinds: large pedestals (relative to the noise), extreme overall scales, integer counts -- for every
     #    method that reaches an optionally compiled kernel (see expected_jit_functions in coq/C10/Sites.v) or a solver.
     #    A fallback that is only algebraically equal to the compiled kernel (e.g. E[x^2] - E[x]^2) cancels here.
